@@ -16,18 +16,18 @@ Local Open Scope N_scope.
     the state machine, the apply log and the apply mark are untouched — for
     ProposeCommand and for ReadCommand, whatever id the caller supplied. *)
 Theorem C23_not_leader :
-  forall (cmd resp sm : Type) nid term lead given w (s : store cmd resp sm N),
-    propose_command nid (VStatus false term lead) given w s = (s, ONotLeader lead) /\
+  forall (cmd resp sm : Type) nid term lead region given w (s : store cmd resp sm N),
+    propose_command nid (VStatus false term lead) region given w s = (s, ONotLeader lead) /\
     read_command_start nid (VStatus false term lead) given s = (s, ONotLeader lead).
-Proof. exact (fun cmd resp sm nid term lead given w s =>
-                conj (@not_leader_propose cmd resp sm nid term lead given w s)
+Proof. exact (fun cmd resp sm nid term lead region given w s =>
+                conj (@not_leader_propose cmd resp sm nid term lead region given w s)
                      (@not_leader_read cmd resp sm nid term lead given s)). Qed.
 Print Assumptions C23_not_leader.
 
 (** In the cluster: the call changes no store and registers no proposal. *)
 Theorem C23_not_leader_cluster :
-  forall (cmd resp sm : Type) (applier : sm -> cmd -> sm * option resp) (g : gstate cmd resp sm) s w c term lead,
-    let g' := gstep applier (next_id (W := N)) g (GPropose s w c (VStatus false term lead)) in
+  forall (cmd resp sm : Type) (applier : sm -> cmd -> sm * option resp) (g : gstate cmd resp sm) s region w c term lead,
+    let g' := gstep applier (next_id (W := N)) g (GPropose s region w c (VStatus false term lead)) in
     (forall x, snd (g_stores g' x) = snd (g_stores g x)) /\ g_props g' = g_props g /\
     g_outs g' = (w, ONotLeader lead) :: g_outs g.
 Proof. exact @not_leader_global. Qed.
